@@ -24,7 +24,7 @@ def inst_tag(name, cfg, defs):
 class Instance:
     """harness x configuration x cell parameters"""
 
-    def __init__(self, hname, cfg="s", defs=(), cap=None, rss=None, flags=None, label=None):
+    def __init__(self, hname, cfg="s", defs=(), cap=None, rss=None, flags=None, label=None, tus=None):
         self.h = registry.HARNESSES[hname]
         self.hname = hname
         self.cfg = cfg
@@ -32,7 +32,8 @@ class Instance:
         self.cap = cap or self.h.get("cap", 120)
         self.rss = rss or self.h.get("rss", 1.0)
         self.flags = list(self.h.get("flags", [])) + list(flags or [])
-        self.tag = inst_tag(hname, cfg, self.defs + self.flags)
+        self.tus = list(tus) if tus is not None else list(self.h.get("tus", []))
+        self.tag = inst_tag(hname, cfg, self.defs + self.flags + self.tus)
         self.label = label or (hname + "[" + cfg + (" " + " ".join(defs) if defs else "") + "]")
         self.query = None
         self.wquery = None
@@ -51,7 +52,7 @@ class Instance:
                     xobjs.append(builder.harness_obj(self.cfg, os.path.join(VERIF, e),
                                                      self.defs + extra, tag + "-x%d" % i))
                 tus = []
-                for tu in h.get("tus", []):
+                for tu in self.tus:
                     o = builder.real_tu(self.cfg, tu)
                     strip = h.get("strip", {}).get(tu)
                     if strip:
@@ -94,8 +95,20 @@ def run_instances(insts, workdir, use_cache=True, verbose=True, witness=True):
     # real TUs first (shared)
     need = set()
     for i in insts:
-        for tu in i.h.get("tus", []):
+        for tu in i.tus:
             need.add((i.cfg, tu))
+    if any(i.h.get("langdata") for i in insts):
+        from . import langdata
+        langs = builder.langs()
+        known, _ = load_known()
+        kp = {}
+        for k in known:
+            if k["key"] and k["key"].startswith("prefix-words-"):
+                lid = k["key"][len("prefix-words-"):]
+                words = [w for w in k["text"].split() if w.startswith("words=")]
+                if words:
+                    kp[lid] = [(w.encode(), b"") for w in words[0][6:].split(",")]
+        langdata.write_header(langs, os.path.join(workdir, "langdata_gen.h"), kp)
     with cf.ThreadPoolExecutor(16) as ex:
         futs = [ex.submit(builder.real_tu, c, t) for (c, t) in need]
         for f in futs:
@@ -295,7 +308,8 @@ def cmd_run(args):
         m = [n for n in registry.HARNESSES if fnmatch.fnmatch(n, pat)]
         names += m if m else [pat]
     insts = [Instance(n, cfg=args.cfg, defs=defs, cap=args.cap, rss=args.rss,
-                      flags=(["--unwind", str(args.unwind)] if args.unwind else None)) for n in names]
+                      flags=(["--unwind", str(args.unwind)] if args.unwind else None),
+                      tus=(args.tus.split(",") if args.tus else None)) for n in names]
     workdir = os.path.join(core.BUILD_ROOT, "run-%d" % os.getpid())
     os.makedirs(workdir, exist_ok=True)
     bad = 0
@@ -357,6 +371,7 @@ def main(argv):
     r.add_argument("-D", action="append")
     r.add_argument("--cap", type=int, default=None)
     r.add_argument("--unwind", type=int, default=None)
+    r.add_argument("--tus", default=None)
     r.add_argument("--rss", type=float, default=None)
     r.add_argument("--nocache", action="store_true")
     r.add_argument("--nowitness", action="store_true")
